@@ -8,7 +8,8 @@ EXPLANATION = (
     "constants 16384 (public key) and 64 (proof), each used by its own loader; (R2) the JSON point adapters agree: "
     "encoder and decoder use the same base64 engine constant, the decoder accepts exactly 32 decoded bytes, "
     "Evaluation.output is wired to this pair in both directions, and ProofDLEQ / ServerPublicKey / Point derive "
-    "both Serialize and Deserialize; (R4) both binary encoders return exactly bincode::serialize(self); (R3) decode errors (serde, base64, length) flow into the returned Err - the "
+    "both Serialize and Deserialize; (R4) both binary encoders return exactly bincode::serialize(self); (R5) every derived Serialize in ppoprf writes each declared field exactly once on every path and no derived "
+    "Deserialize substitutes a default for a missing element (bincode is positional and not self-describing); (R3) decode errors (serde, base64, length) flow into the returned Err - the "
     "Ok value is exactly the decoder's payload.  NOT decided: equality of restored and original values (round "
     "trip is a runtime relation), behaviour of bincode/serde themselves.")
 ASSUMPTIONS = ["bincode 1.3 / serde derive produce symmetric encodings for derived Serialize/Deserialize"]
@@ -141,6 +142,47 @@ def run(ctx):
                 F.adt("ppoprf::ppoprf::" + adt)["loc"])
     ctx.floor("C15.R2", 8)
     ctx.floor("C15.R3", 6)
+    derived_codecs_positional(ctx, "C15.R5")
+    ctx.floor("C15.R5", 6)
+
+
+def derived_codecs_positional(ctx, rule, cfg="A"):
+    """bincode is positional and not self-describing: a derived Serialize must write every declared field exactly once and
+    unconditionally (no skip_serializing_if), and the derived Deserialize must not substitute defaults for missing
+    elements (no #[serde(default)]) - otherwise some value does not survive the round trip"""
+    from ..cfg import cfg_of
+    F = ctx.F(cfg)
+    for f in sorted(F.fns.values(), key=lambda x: x.name):
+        if f.crate != "ppoprf" or not f.derived or not f.name.endswith("::serialize") or "Serialize for" not in f.name:
+            continue
+        adt = f.name.split("Serialize for ")[1].split(">")[0]
+        cands = [a for n, a in F.adts.items() if n.startswith("ppoprf::") and n.split("::")[-1] == adt.split("::")[-1]]
+        if len(cands) != 1 or not cands[0]["variants"]:
+            continue
+        nfields = len(cands[0]["variants"][0]["fields"])
+        calls = [(bi, (k or {}).get("name") or (k or {}).get("dname") or "") for bi, t, k in F.callees(f)]
+        sf = [bi for bi, n in calls if n.endswith("SerializeStruct::serialize_field")]
+        end = [bi for bi, n in calls if n.endswith("SerializeStruct::end")]
+        skip = [bi for bi, n in calls if "skip_field" in n]
+        if not end:
+            continue        # newtype / adapter structs: nothing positional to check
+        cfg_ = cfg_of(f)
+        uncond = all(cfg_.dominates(b, end[0]) for b in sf)
+        ok = len(sf) == nfields and not skip and uncond and len(end) == 1
+        ctx.add(rule, "ppoprf::%s#serialize-writes-every-field" % adt.split("::")[-1], ok,
+                "derived Serialize of %s must write each of its %d fields exactly once, unconditionally (found %d writes, %d skips, "
+                "all on every path: %s)" % (adt, nfields, len(sf), len(skip), uncond), f.loc,
+                sample={"fields": nfields, "serialize_field_calls": len(sf)})
+        # the matching Deserialize visitor must not fall back to defaults
+        des = [g for g in F.fns.values() if g.crate == "ppoprf" and g.derived and ("Deserialize<'de> for " + adt + ">") in g.name]
+        dflt = []
+        for g in des:
+            for bi, t, k in F.callees(g):
+                n = (k or {}).get("name") or (k or {}).get("dname") or ""
+                if n.endswith("Default::default") or "Default>::default" in n or "unwrap_or_default" in n:
+                    dflt.append("%s (%s)" % (g.name.split("::")[-1], t.get("at")))
+        ctx.add(rule, "ppoprf::%s#deserialize-no-defaults" % adt.split("::")[-1], not dflt and bool(des),
+                "derived Deserialize of %s must fail on a missing element, not substitute a default: %s" % (adt, dflt), f.loc)
 
 
 def _engine_id(ctx, ev):
